@@ -145,6 +145,30 @@ def geometry_job(job):
                         case = dict(case, raised="%s: %s" % (type(e).__name__, e))
                 ev.append(("G3 FK recovers the pose (fk_mode %d)" % mode, reg, err, 1e-3, case))
                 ev.append(("G3 lengths reported = requested (fk_mode %d)" % mode, reg, lerr, 1e-3, case))
+            # G3x: the same lengths solved over an explicitly given base pose that is NOT where the platform stands: the top
+            # pose is that base times the relative pose, the lengths and joints reported afterwards belong to that base
+            if k == 0:
+                B2 = spzoo.rand_base(rng)
+                mode = rng.choice([0, 1])
+                with quiet():
+                    sp.IK(top_plate_pos=tm(base @ neutral_rel), bottom_plate_pos=tm(base.copy()), protect=True)
+                    try:
+                        top, v = sp.FK(lens.copy(), plate_pos=tm(B2.copy()), fk_mode=mode)
+                        err = float(np.abs(top.gTM() - B2 @ rel).max()) / h
+                        lerr = float(np.abs(np.asarray(sp.getLens()).reshape(6) - lens).max()) / h
+                        _, pb2, pt2 = spzoo.oracle_lens(bl, tl, sp.getBottomT().gTM(), sp.getTopT().gTM())
+                        jerr = float(max(np.abs(np.array(sp.getBottomJoints(), dtype=float) - pb2).max(),
+                                         np.abs(np.array(sp.getTopJoints(), dtype=float) - pt2).max())) / h
+                        berr = float(np.abs(sp.getBottomT().gTM() - B2).max())
+                    except Exception as e:
+                        err = lerr = jerr = berr = float("inf")
+                        case = dict(case, raised="%s: %s" % (type(e).__name__, e))
+                    sp.IK(top_plate_pos=tm(T.copy()), bottom_plate_pos=tm(base.copy()), protect=True)
+                cx = dict(case, B2=B2.tolist(), fk_mode=mode)
+                ev.append(("G3x FK over an explicit base recovers the pose", reg, err, 1e-3, cx))
+                ev.append(("G3x lengths reported = requested", reg, lerr, 1e-3, cx))
+                ev.append(("G3x joints reported belong to the plates' poses", reg, jerr, 1e-9, cx))
+                ev.append(("G3x the platform stands on the given base", reg, berr, 1e-9, cx))
     return ev
 
 
@@ -172,6 +196,10 @@ def run(ctx):
     for law in ("G1 IK lengths = joint distances", "G2 rigid-motion invariance", "G3 FK recovers the pose (fk_mode 0)",
                 "G3 FK recovers the pose (fk_mode 1)"):
         for reg in ("newSP|identity-base|fresh", "newSP|placed|moved", "newSP|placed|respun", "loadSP|placed|respun"):
+            L.require(law, reg, 2)
+    for law in ("G3x FK over an explicit base recovers the pose", "G3x lengths reported = requested",
+                "G3x joints reported belong to the plates' poses", "G3x the platform stands on the given base"):
+        for reg in ("newSP|identity-base|fresh", "newSP|placed|moved", "loadSP|placed|respun"):
             L.require(law, reg, 2)
     for how in ("newSP", "loadSP"):
         for nm in ("bottom", "top"):
